@@ -81,6 +81,11 @@ def handshake_datagram_times():
         _PILOT["t"] = ts
         _PILOT["ev"] = sorted({round(e["t"] / 1000.0, 3) for e in r.log if e["k"] == "deliver" and e["t"] < 11000})
         _PILOT["named"] = [(e["ev"], round(e["t"] / 1000.0, 3)) for e in r.log if e["k"] == "deliver" and e["t"] < 11000]
+        # arrival of the final segment of the initial status block
+        from ..sessions import inner as _inner
+        lastseg = [t + (info["fates"][0] if info.get("fates") else 0.0) for (t, d, data, info) in r.s.net.log
+                   if d == "s2c" and (_inner(data) or b"")[:5] == b"STATV" and len(_inner(data)) > 7 and _inner(data)[6] == 0 and t < 11.0]
+        _PILOT["lastseg"] = round(lastseg[0], 3) if lastseg else None
     return _PILOT["t"]
 
 
@@ -110,6 +115,14 @@ def scenarios(rng, quick):
         for d in ([0.05] if quick else [0.002, 0.05, 0.09]):
             t = round(te + d, 3)
             out.append((f"reset@ev{te}+{d}", [(t, "reset" if int(te * 1000) % 2 == 0 else "setinfo", None)], {}, t + 45))
+    # a reset in the very polls in which the final segment of the initial status block arrives and is taken
+    event_times()
+    # (the 27 frames arrive together and are unwrapped one per poll: the block is complete just before SPA_COMPLETE)
+    tc_ = [te for (n2_, te) in _PILOT["named"] if n2_ == "SPA_COMPLETE"]
+    if tc_:
+        for d_ in [round(0.01 * k, 2) for k in range(1, 16)]:
+            t = round(tc_[0] - d_, 3)
+            out.append((f"lastseg-reset-{d_}", [(t, "reset", None)], {}, t + 60))       # (no wake-up jitter: the name)
     # a reset that lands while the client's handler of an event of the connection attempt is suspended (the second
     # LOCATING_FINISHED belongs to the connection's own discovery, the CONNECTION_ events to its handshake)
     event_times()
